@@ -92,7 +92,9 @@ class CipherState:
         return c.encryptor() if encrypt else c.decryptor()
 
     # ---- protect ------------------------------------------------------------------------
-    def protect(self, ctype, data, rec_version=None, pad13=0, pad_blocks=0, outer13=True):
+    def protect(self, ctype, data, rec_version=None, pad13=0, pad_blocks=0, outer13=True, first_byte=None):
+        """first_byte: where the sender chooses the first byte of the protected fragment (explicit CBC IV of TLS 1.1/1.2,
+        explicit AEAD nonce of TLS 1.2 GCM/CCM) it is set to this value"""
         """returns the complete record (header + protected fragment)"""
         v = self.version
         rv = rec_version if rec_version is not None else (TLS12 if v == TLS13 else v)
@@ -110,6 +112,8 @@ class CipherState:
             bs = sp.block
             if v >= TLS11:
                 iv = self.rng.randbytes(bs)
+                if first_byte is not None:
+                    iv = bytes([first_byte]) + iv[1:]
                 prefix = iv
             else:
                 iv = self.iv
@@ -135,6 +139,8 @@ class CipherState:
                 frag += self._mac(seq, ctype, rv, frag)
         elif sp.mode in ("GCM", "CCM"):
             explicit = struct.pack("!Q", seq)
+            if first_byte is not None:
+                explicit = bytes([first_byte]) + explicit[1:]       # RFC 5288: the explicit part is the sender's choice
             aad = struct.pack("!QBHH", seq, ctype, rv, len(data))
             frag = explicit + self._aead.encrypt(self.iv + explicit, data, aad)
         elif sp.mode == "CHACHA":
@@ -308,7 +314,7 @@ DEFAULT = {
     "version": TLS12, "suite": 0xC02F, "etm": False, "hs_secrets": True, "sid_len": 32, "exts": "typical",
     "abbreviated": False, "server_group": "one_each", "client_group": "one_each", "ccs13": True, "pad13": 0, "pad13_hs": 0,
     "tickets": 0, "ticket_pos": "before", "enc_flight_split": None, "offered": None, "keylog_label": "CLIENT_RANDOM",
-    "history": [("c", 100), ("s", 300)], "pad_blocks": 0, "sflight_records": None, "early_s": 0,
+    "history": [("c", 100), ("s", 300)], "pad_blocks": 0, "sflight_records": None, "early_s": 0, "fin_first_byte": None, "master": None,
 }
 
 
@@ -382,7 +388,7 @@ class Connection:
         v = self.version
         sp = self.sp
         rng = self.rng
-        master = rng.randbytes(48)
+        master = s["master"] or rng.randbytes(48)
         self.master = master
         if s["keylog_label"] == "CLIENT_RANDOM":
             self.keylog.append(f"CLIENT_RANDOM {self.client_random.hex()} {master.hex()}")
@@ -418,10 +424,10 @@ class Connection:
             srecs = plain_recs("s", [sh], "one_each", v)
             self.server_hello_rec = srecs[0]
             srecs.append(Rec("s", self._plain_record(CT_CCS, b"\x01", v), "ccs"))
-            srecs.append(Rec("s", sw.protect(CT_HS, hs_msg(20, rng.randbytes(fin_len))), "hs_enc"))
+            srecs.append(Rec("s", sw.protect(CT_HS, hs_msg(20, rng.randbytes(fin_len)), first_byte=s["fin_first_byte"]), "hs_enc"))
             self.sends.append(("s", srecs))
             crecs = [Rec("c", self._plain_record(CT_CCS, b"\x01", v), "ccs"),
-                     Rec("c", cw.protect(CT_HS, hs_msg(20, rng.randbytes(fin_len))), "hs_enc")]
+                     Rec("c", cw.protect(CT_HS, hs_msg(20, rng.randbytes(fin_len)), first_byte=s["fin_first_byte"]), "hs_enc")]
             self.sends.append(("c", crecs))
         else:
             msgs = [sh, hs_msg(11, b"\x00\x01\x2c\x00\x01\x29" + rng.randbytes(297)),
@@ -431,7 +437,7 @@ class Connection:
             self.sends.append(("s", srecs))
             crecs = plain_recs("c", [hs_msg(16, rng.randbytes(66))], "one_each", v)
             crecs.append(Rec("c", self._plain_record(CT_CCS, b"\x01", v), "ccs"))
-            crecs.append(Rec("c", cw.protect(CT_HS, hs_msg(20, rng.randbytes(fin_len))), "hs_enc"))
+            crecs.append(Rec("c", cw.protect(CT_HS, hs_msg(20, rng.randbytes(fin_len)), first_byte=s["fin_first_byte"]), "hs_enc"))
             if s["client_group"] == "one_each":
                 for r in crecs:
                     self.sends.append(("c", [r]))
@@ -441,7 +447,7 @@ class Connection:
             if s["tickets"]:
                 srecs.append(Rec("s", self._plain_record(CT_HS, hs_msg(4, rng.randbytes(180)), v), "hs"))
             srecs.append(Rec("s", self._plain_record(CT_CCS, b"\x01", v), "ccs"))
-            srecs.append(Rec("s", sw.protect(CT_HS, hs_msg(20, rng.randbytes(fin_len))), "hs_enc"))
+            srecs.append(Rec("s", sw.protect(CT_HS, hs_msg(20, rng.randbytes(fin_len)), first_byte=s["fin_first_byte"]), "hs_enc"))
             self.sends.append(("s", srecs))
         for d, n in s["history"]:
             data = self._app_payload(d, n)
